@@ -299,3 +299,11 @@ package internal_planner
 //@     step bucket-with-samples-is-emitted-with-its-value: v.values[prev(i) + 1] > 0 ==> len(entries) == prev(len(entries)) + 1 && entries[len(entries) - 1].Value == v.values[prev(i)]
 //@     step bucket-without-samples-is-not: !(v.values[prev(i) + 1] > 0) ==> len(entries) == prev(len(entries))
 //@     step one-bucket-is-two-slots: i == prev(i) + 2
+
+// line_format in the in-process engine: a label the entry does not carry renders as the
+// empty string, as LogQL defines it (text/template's default would print
+// "<no value>", and every later stage would see a different line than the SQL engine
+// produces).
+//@ func (*LineFormatterPlanner).Process [C09]
+//@   flag checks=-index,-assert
+//@   at Template).Option$ a-missing-label-renders-empty: len(arg0) == 1 && arg0[0] == "missingkey=zero"
